@@ -334,6 +334,7 @@ fn received_class(m: &Meta) -> &'static str {
                 Lit::ByteStr(_) => "lit-bytestr",
                 _ => "lit-other",
             },
+            Expr::Unary(u) if matches!(u.op, syn::UnOp::Neg(_)) && matches!(&*u.expr, Expr::Lit(l) if matches!(l.lit, Lit::Int(_) | Lit::Float(_))) => "expr-neg-lit",
             Expr::Unary(_) => "expr-unary",
             Expr::Path(_) => "expr-path",
             Expr::Group(_) => "expr-group",
@@ -345,7 +346,13 @@ fn received_class(m: &Meta) -> &'static str {
 pub fn expected(t: &Target, d: &Denotes, recv: &str) -> Want {
     let from = |o: Option<String>| o.map(Want::Ok).unwrap_or(Want::Err);
     match (t.kind, d, recv) {
-        // rule 3 of DESIGN §0: what arrives as a non-literal expression is rejected by every scalar target
+        // a negative number is a literal wherever it stands in the list: syn hands it over as a literal
+        // only when it is the last thing in the stream and as `-` applied to a literal otherwise; the
+        // statement speaks of "an unquoted literal, its sign and decimal value"
+        (Kind::Int, Denotes::Int(v), "expr-neg-lit") => from((t.std_parse)(v)),
+        (Kind::Float, Denotes::Float(v), "expr-neg-lit") => from((t.std_parse)(v)),
+        (_, _, "expr-neg-lit") => Want::Err,
+        // what arrives as any other non-literal expression is rejected by every scalar target
         (_, _, "expr-unary") | (_, _, "expr-path") | (_, _, "expr-other") => Want::Err,
         (Kind::Int, Denotes::Int(v), "lit-int") => from((t.std_parse)(v)),
         (Kind::Float, Denotes::Float(v), "lit-float") => from((t.std_parse)(v)),
@@ -771,7 +778,7 @@ fn outcome(min: u64, ex: bool) -> Outcome {
         rule: "meta items parsed from generated source text (stand-alone and as first/middle/last list member) converted by all 30 scalar targets; the generator knows the denoted value (sign+decimal) of every literal it spells (radix 2/8/10/16, underscores, suffixes, 1..60 digits, type boundaries +-2), the reference is str::parse::<T> of that canonical spelling or of the quoted contents; errors must be spanned inside the item. Non-trivial = every judged conversion; distinct = (target, received syntactic class, spelling class, list position, accepted?).".into(),
         assumptions: vec![
             "str::parse::<T> is the target type's standard parsing (the reference the property names)".into(),
-            "what reaches darling is classified by the syn::Expr variant it is handed (DESIGN §0 rule 3): a negative unquoted number that syn delivers as Expr::Unary is a non-literal expression".into(),
+            "what reaches darling is classified by the syn::Expr variant it is handed, except that `-` applied to a numeric literal (how syn delivers a negative number that is not the last token of the stream) denotes that negative literal".into(),
         ],
         min_nontrivial: min,
         exhaustive: if ex { Some(false) } else { None },
